@@ -14,7 +14,7 @@ ID = "C03"
 TECHNIQUE = "solver-enumerated grammar documents through the instrumented MyST front end (symx), with a docutils-tree well-formedness checker applied after parsing and after the transform pipeline"
 LEVEL_TEXT = ("For every document of the bounded block grammar (paragraphs, headings of any level order, thematic breaks at top level and inside quotes / list items / directive bodies, tables with "
               "ragged rows, targets incl. duplicates, '#'-links to existing and missing targets, footnote references/definitions, HTML blocks, admonition directives, nesting depth <= 3) the "
-              "doctree is checked after parsing and after the transforms: single parent, sections only under document/section and starting with a title, transitions only under document/section, "
+              "doctree is checked after parsing and after the transforms (also for 18 docutils directives run through the mock state machine, {line-block} bodies with every indentation profile, and footnote labels / targets / headings sharing one name): single parent, sections only under document/section and starting with a title, transitions only under document/section, "
               "unique ids, every refid/backref resolves unless a target-not-found warning was issued, table rows as wide as the column count, footnotes starting with their label.")
 LEVEL_NOTE = ("Degenerate: documents are concrete once chosen; the engine enumerates the grammar exhaustively by case split and executes the instrumented MyST code. markdown-it's tokenizer and "
               "docutils' transforms run natively. docutils' own error messages (e.g. 'Document may not end with a transition') are not violations.")
@@ -51,7 +51,34 @@ def leaf_lines(kind, n):
         "table-ragged": ["| a | b |", "|---|---|", "| 1 |", "| 1 | 2 | 3 |"],
         "code": ["```", "C%d" % n, "```"],
         "inline-html": ["I%d <b>bold</b> and <i>it</i>" % n],
+        "target-n": ["(n)=", "T%d after target n" % n],
+        "h1-n": ["# n"],
+        "fnref-a": ["F%d ref[^a]" % n],
+        "fndef-a": ["[^a]: D%d note" % n],
+        "d-figure": ["```{figure} img.png", ":name: fig%d" % n, "", "Caption %d" % n, "", "Legend para", "", "- legend list", "```"],
+        "d-figure-bad": ["```{figure} img.png", "", "- not a caption", "```"],
+        "d-list-table": ["```{list-table} T%d" % n, ":header-rows: 1", "", "* - a", "  - b", "* - 1", "  - [](#a)", "```"],
+        "d-list-table-ragged": ["```{list-table}", "", "* - a", "  - b", "* - 1", "```"],
+        "d-table": ["```{table} Cap%d" % n, ":name: tab%d" % n, "", "| a | b |", "|---|---|", "| 1 | 2 |", "```"],
+        "d-csv": ["```{csv-table} C%d" % n, ":header: x, y", "", "1, 2", "3", "```"],
+        "d-topic": ["```{topic} Topic %d" % n, "", "# inner heading", "", "para", "```"],
+        "d-sidebar": ["```{sidebar} Side %d" % n, ":subtitle: sub", "", "---", "", "para", "```"],
+        "d-epigraph": ["```{epigraph}", "Quote %d" % n, "", "-- attribution", "```"],
+        "d-parsed-literal": ["```{parsed-literal}", "lit *em* %d" % n, "  more", "```"],
+        "d-container": ["```{container} cls", "", "(a)=", "para %d" % n, "```"],
+        "d-rubric": ["```{rubric} R%d" % n, ":name: n", "```"],
+        "d-math": ["```{math}", ":label: eq%d" % n, "", "a = %d" % n, "```"],
+        "d-code": ["```{code-block} python", ":name: n", ":caption: Cap", "", "x = %d" % n, "```"],
+        "d-admon-title": ["```{admonition} Title [^n] *e*", ":class: tip", "", "body %d" % n, "```"],
+        "d-evalrst": ["```{eval-rst}", "Sec%d" % n, "=====", "", "para [#]_", "", ".. [#] auto note", "```"],
+        "d-unknown": ["```{nosuchdirective} arg", "body", "```"],
+        "d-compound": ["```{compound}", "", "para", "", "    code", "```"],
     }[kind]
+
+
+DIRS = ["d-figure", "d-figure-bad", "d-list-table", "d-list-table-ragged", "d-table", "d-csv", "d-topic", "d-sidebar", "d-epigraph", "d-parsed-literal", "d-container", "d-rubric", "d-math", "d-code",
+        "d-admon-title", "d-evalrst", "d-unknown", "d-compound"]
+NAMES = ["fnref", "fndef", "target-n", "h1-n", "fnref-a", "fndef-a", "link-a", "target-a"]
 
 
 def gen_blocks(c, depth, nblocks, counter, leafs=None):
@@ -189,11 +216,65 @@ def make(eng, depth, nblocks, raw_enabled=True, leaf=None):
     return body
 
 
+def make_lineblock(eng, nlines, maxindent, where):
+    """{line-block} bodies with every indentation profile (MockState.line_block / nest_line_block_lines)."""
+    setup()
+    c = CR.Choice(eng, n=16, width=15)
+    state = {}
+    eng.witness_fn = lambda m: {"text": state.get("text"), "raw_enabled": True}
+
+    def body():
+        c.reset()
+        ind = [c.choose(maxindent + 1) for _ in range(nlines)]
+        blank = c.choose(nlines + 1)  # position of an optional blank line (== nlines: none)
+        inner = []
+        for i, k in enumerate(ind):
+            if i == blank and i > 0:
+                inner.append("")
+            inner.append(" " * (2 * k) + "line %d *e*" % i)
+        lines = ["```{line-block}"] + inner + ["```"]
+        if where == "quote":
+            lines = ["> " + l if l else ">" for l in lines]
+        elif where == "list":
+            lines = [("- " if i == 0 else "  ") + l if l else "" for i, l in enumerate(lines)]
+        text = "\n".join(lines) + "\n"
+        state["text"] = text
+        try:
+            stages = run_stages(text)
+        except Exception as exc:  # noqa
+            import traceback
+
+            tb = traceback.extract_tb(exc.__traceback__)
+            eng.fail("pipeline-raises", "%s: %s at %s" % (type(exc).__name__, exc, "; ".join("%s:%d" % (f.name, f.lineno) for f in tb[-2:])))
+        from docutils import nodes
+
+        for stage, doc in stages:
+            err = wf_check(doc, stage)
+            if err:
+                eng.fail(err[0], err[1])
+            got = [l.astext() for l in doc.findall(nodes.line) if l.astext()]
+            if got != ["line %d e" % i for i in range(nlines)]:
+                eng.fail("line-block-lines", "%s: lines %r" % (stage, got))
+        eng.passed(18)
+        if len(set(ind)) > 1:
+            eng.note("nested")
+        return "ok"
+
+    return body
+
+
 def families(tier, seed):
     q = tier == "quick"
     F = []
     F.append(Family("flat/B2", make, "all pairs of top-level blocks from %r" % (LEAF,), args=dict(depth=0, nblocks=2), nontrivial=None, max_forks=400000))
     F.append(Family("nested/D1-B1", make, "one block, containers %r holding 1-2 leaf blocks" % (CONT,), args=dict(depth=1, nblocks=1), nontrivial="nested", max_forks=400000))
+    F.append(Family("names/B3", make, "all triples of blocks from %r (footnote labels, explicit targets and headings sharing a name)" % (NAMES,), args=dict(depth=0, nblocks=3, leaf=NAMES), nontrivial=None, max_forks=400000))
+    F.append(Family("directives/D1", make, "one block: a directive from %r at top level or inside quote / list item / note" % (DIRS,), args=dict(depth=1, nblocks=1, leaf=DIRS), nontrivial="nested", max_forks=400000))
+    F.append(Family("directives+names/B2", make, "pairs of a directive and a name-bearing block", args=dict(depth=0, nblocks=2, leaf=DIRS + ["target-n", "fndef", "fnref", "link-a", "h1-n"]), nontrivial=None, max_forks=400000,
+                    required=False))
+    for where in ("top", "quote") if q else ("top", "quote", "list"):
+        F.append(Family("line-block/%s" % where, make_lineblock, "{line-block} of %d lines, each indented 0-2 levels, optional blank line, %s" % (4 if q else 5, where), args=dict(nlines=4 if q else 5, maxindent=2, where=where),
+                        nontrivial="nested", max_forks=400000))
     F.append(Family("raw-disabled/B3", make, "triples of blocks from ['html', 'para', 'hr', 'h1'] with raw_enabled=False (raw nodes are replaced by warnings)",
                     args=dict(depth=0, nblocks=3, raw_enabled=False, leaf=["html", "para", "inline-html", "h1"]), nontrivial=None, max_forks=400000))
     F.append(Family("raw-disabled/D1", make, "containers with html blocks, raw_enabled=False", args=dict(depth=1, nblocks=1, raw_enabled=False, leaf=["html", "para", "inline-html"]), nontrivial="nested", max_forks=400000))
@@ -218,7 +299,9 @@ def replay(label, witness):
     for stage, doc in stages:
         err = wf_check(doc, stage)
         if err:
-            return ("C03/%s" % err[0], "document %r: %s" % (text, err[1]))
+            # violations caused by rST embedded through {eval-rst} (separate docutils document whose registries are dropped) are a distinct finding
+            ctx = ":eval-rst" if "{eval-rst}" in text and err[0] in ("footnote-without-label", "section-in-container", "duplicate-id") else ""
+            return ("C03/%s%s" % (err[0], ctx), "document %r: %s" % (text, err[1]))
     return None
 
 
